@@ -152,7 +152,7 @@ def main():
         plan = []
         n_nodes = rng.randint(4, 9)
         for i in range(n_nodes):
-            kind = rng.choice(["add", "add", "mul", "sq", "cube", "scale", "fma", "fma", "zero", "inactive", "masked", "pass"])
+            kind = rng.choice(["add", "add", "mul", "sq", "cube", "scale", "fma", "fma", "zero", "inactive", "masked", "pass", "index", "index", "pick"])
             a = rng.randrange(-1, i) if i else -1          # -1 = the input itself
             b = rng.randrange(-1, i) if i else -1
             plan.append((kind, a, b, rng.randrange(2)))
@@ -177,6 +177,10 @@ def main():
                     vals.append(anp.where(onp.array([c == 1, False, False]), get(a), get(b)))
                 elif kind == "pass":            # consumers that hand their cotangent on unchanged (the same array object)
                     vals.append(anp.reshape(get(a), (3,)) + 0.0)
+                elif kind == "index":           # a sparse (indexed) contribution next to dense ones for the same value
+                    vals.append(get(b) + 3.0 * get(a)[c + 1])
+                elif kind == "pick":
+                    vals.append(get(a)[onp.array([0, 0, 2])] + get(b)[::-1])
                 elif kind == "sq":
                     vals.append(get(a) ** 2)
                 elif kind == "cube":
